@@ -2,10 +2,27 @@ package loader
 
 import "github.com/jsightapi/jsight-schema-go-library/notations/jschema/internal/schema"
 
+// AddUnnamedTypes adds the types of the types (the unnamed types made from "or"
+// rule-sets, and the named types which were added to a type but not to the root)
+// to the root schema. The types of those types as well, until nothing new comes
+// up. A type the root already has is kept. In the order of the names, see
+// schema.Schema.TypeNames.
 func AddUnnamedTypes(rootSchema *schema.Schema) {
-	for _, typ := range rootSchema.TypesList() {
-		for unnamed, unnamedTyp := range typ.Schema().TypesList() {
-			rootSchema.AddType(unnamed, unnamedTyp)
+	for {
+		added := false
+		for _, name := range rootSchema.TypeNames() {
+			typ := rootSchema.TypesList()[name]
+			inner := typ.Schema()
+			for _, innerName := range inner.TypeNames() {
+				if _, ok := rootSchema.TypesList()[innerName]; ok {
+					continue
+				}
+				rootSchema.AddType(innerName, inner.TypesList()[innerName])
+				added = true
+			}
+		}
+		if !added {
+			return
 		}
 	}
 }
